@@ -391,10 +391,13 @@ theorem renderLine_changeset (ch : OplSpec.Choices) (id ca cl nc ncm : Nat) (uid
       · have h : fin.tagsBegin = none := congrArg CsSt.tagsBegin h
         have hd : tags = [] := by simpa using hd
         rw [h, hd]; rfl
+    have hsu : setUserCheck user = .ok () := by
+      have hl := strOK_len h.user
+      unfold setUserCheck; simp [maxString]; omega
     rw [parseLine_changeset, pChangeset, hidp rest hsep.noDigit]
     simp only [bindE_ok]
     rw [hfuel]
-    simp only [bindE_ok, htags, hnc, hca, hcl, hncm, huid, huser, hblx, hbly, htrx, htry]
+    simp only [bindE_ok, hsu, htags, hnc, hca, hcl, hncm, huid, huser, hblx, hbly, htrx, htry]
   · rcases List.mem_append.1 hb with h | h
     · exact (hidn b h).clean
     · exact hclean b h
